@@ -4,7 +4,7 @@ import phasecheck as pc
 import json
 import setgen, setlib as sl, vlib
 
-ORPHAN_ID = "C05 ObjectSet deleted with orphan propagation deletes a member object or an ObjectSetPhase"
+ORPHAN_ID = "C05 ObjectSet teardown deletes a member or an ObjectSetPhase under orphan propagation, or an ObjectSetPhase it does not control"
 
 
 def orphan_sets(seed, n):
@@ -14,6 +14,23 @@ def orphan_sets(seed, n):
         t = [s for s in sc["sets"] if s["name"] == sc["target"]["name"] and s["kind"] == sc["target"]["kind"]][0]
         t["conds"] = [c for c in t["conds"] if not (c[0] == 4 and c[1] == 0)]   # not yet archived
         t["deleting"], t["orphan"], t["fin"] = True, True, True
+        out.append(sc)
+    return out
+
+
+def going_sets(seed, n):
+    """ObjectSets with delegated phases that are being deleted or archived (no orphan finalizer): a phase object is
+    deleted (or its finalizer stripped) only after it was read in this pass and found controlled by THIS ObjectSet;
+    phase objects controlled by another ObjectSet, by nobody, or recorded under a stale uid are left alone."""
+    out = []
+    for i, sc in enumerate(setgen.gen_delegated(seed, n, salt="C05g")):
+        t = [s for s in sc["sets"] if s["name"] == sc["target"]["name"] and s["kind"] == sc["target"]["kind"]][0]
+        t["conds"] = [c for c in t["conds"] if not (c[0] == 4 and c[1] == 0)]
+        t["orphan"], t["fin"] = False, True
+        if i % 2:
+            t["deleting"] = True
+        else:
+            t["life"] = 2
         out.append(sc)
     return out
 
@@ -30,7 +47,7 @@ def check(run, tier, seed, replay=None):
                    "states) through the real (Cluster)ObjectSet controller: no delete of any member and no delete / finalizer strip of any ObjectSetPhase", faults=True)
     if replay and not set_replay:
         return
-    osc = [rsc] if set_replay else orphan_sets(seed, 120 if tier == "quick" else 1500)
+    osc = [rsc] if set_replay else orphan_sets(seed, 120 if tier == "quick" else 1500) + going_sets(seed, 150 if tier == "quick" else 2000)
     res = sl.run_cases(run, osc, "judge05s", 2, "From PKOCorr Require Import SetMonitors.")
     run.cov["evaluations"] += len(res)
     for sc, obs, r in res:
